@@ -14,6 +14,8 @@ struct ModelTraits {
 	int  dmin = 1, dmax = 3;
 	bool static_arrays = false;  // slots are static_array (no resizing assignment)
 	bool throwing_move = false;  // element moves can throw (TrackedNM)
+	bool serialization = false;  // SAVE/LOAD operations are available in this build
+	bool tracked       = true;   // element type reports its moved-from state (Tracked*)
 };
 
 struct Effect {
@@ -32,6 +34,8 @@ struct Effect {
 	std::string variant;    // op-variant for signatures (Appendix A of DESIGN.md)
 	long elems = 0;         // elements involved (guides fault placement)
 	int  probe_id = -1;
+	int  file_id = -1;       // SAVE: file written (file_next) / LOAD: file read
+	MFile file_next;
 };
 
 inline void set_dims(MArr& a, int D, int const* n) {
@@ -468,6 +472,7 @@ inline bool plan_effect(Model const& M, ModelTraits const& T, Op const& op, Effe
 		} else {
 			if(!binary_view_dims_ok(dv, sv)) return false;
 			if(op.kind == O_VASSIGN_VIEW && (op.var < 0 || op.var > 3)) return false;
+			if(op.kind == O_VASSIGN_VIEW && op.var == 2 && !T.tracked && !T.trivial) return false;  // moved-from value of such elements is unspecified
 			if(op.kind == O_VSWAP && (op.var < 0 || op.var > 1)) return false;
 		}
 		if(same_root && !disjoint(dv, sv)) return false;
@@ -583,6 +588,72 @@ inline bool plan_effect(Model const& M, ModelTraits const& T, Op const& op, Effe
 		e.reads_only = true;
 		e.elems      = x.count();
 		e.expect_no_alloc = true;
+		return true;
+	}
+	// ------------------------------------------------------------ serialization
+	case O_SAVE: {
+		if(!T.serialization || op.file < 0 || op.file >= NFILE || op.arch < 0 || op.arch > 2) return false;
+		MView v;
+		if(!model_view(M, T, op.da, op.a, op.ca, v)) return false;
+		if(op.var < 0 || op.var > 1) return false;
+		if(op.var == 0 && op.ca.n != 0) return false;  // var 0 saves the owning array itself
+		if(v.count() == 0 && op.var == 1) return false;
+		if(v.count() == 0) {  // empty arrays: only regular empties (leading extent zero), see I4
+			MArr const& a0 = M.at(op.da, op.a);
+			if(a0.n[0] != 0) return false;
+		}
+		e.reads_only        = true;
+		e.expect_no_alloc   = true;
+		e.file_id           = op.file;
+		e.file_next         = MFile{};
+		e.file_next.valid    = true;
+		e.file_next.arch     = op.arch;
+		e.file_next.is_array = op.var == 0;
+		e.file_next.D        = v.D;
+		for(int k = 0; k < v.D; ++k) e.file_next.n[k] = v.n[k];
+		e.file_next.v = gather(M.at(op.da, op.a), v);
+		e.elems       = v.count();
+		static char const* an[] = {"text", "binary", "xml"};
+		var(an[op.arch]);
+		var(op.var ? "view" : "array");
+		return true;
+	}
+	case O_LOAD: {
+		if(!T.serialization || op.file < 0 || op.file >= NFILE) return false;
+		MFile const& f = M.files[op.file];
+		if(!f.valid) return false;
+		static char const* an[] = {"text", "binary", "xml"};
+		var(an[f.arch]);
+		e.file_id = op.file;
+		if(f.is_array) {
+			if(op.ca.n != 0 || op.da != f.D) return false;
+			if(!slot_ok(op.da, op.a, T) || !M.at(op.da, op.a).alive) return false;
+			MArr const& a0   = M.at(op.da, op.a);
+			bool const  same = dims_equal(a0, f.D, f.n);
+			if(T.static_arrays && !same) return false;
+			MArr& a = tgt(0, op.da, op.a);
+			var(rel_name(a0, f.count(), same));
+			set_dims(a, f.D, f.n);
+			a.v     = f.v;
+			e.elems = f.count();
+			if(same && a0.count() > 0) e.expect_no_alloc = e.expect_base_unchanged = true;
+			e.probe_id = same ? P_LOAD_SAME_EXT : P_LOAD_DIFF_EXT;
+			return true;
+		}
+		MView dv;
+		if(!model_view(M, T, op.da, op.a, op.ca, dv) || dv.count() == 0) return false;
+		if(dv.D != f.D) return false;
+		for(int k = 0; k < f.D; ++k)
+			if(dv.n[k] != f.n[k]) return false;
+		MArr& a        = tgt(0, op.da, op.a);
+		e.viewwrite[0] = true;
+		e.elems        = dv.count();
+		e.expect_no_alloc = e.expect_base_unchanged = true;
+		for(std::size_t i = 0; i < dv.off.size(); ++i) a.v[static_cast<std::size_t>(dv.off[i])] = f.v[i];
+		e.touched[0].assign(a.v.size(), 0);  // after a stream fault the viewed elements are unspecified, all others unchanged
+		for(int q : dv.off) e.touched[0][static_cast<std::size_t>(q)] = 1;
+		var("into-view");
+		e.probe_id = P_LOAD_INTO_VIEW;
 		return true;
 	}
 	default: return false;
